@@ -1,3 +1,297 @@
-import HapVerif.Model.C01
+import HapVerif.Lemmas.C01Step
+import HapVerif.Generated.Facts
+/-
+C01 — incremental (partial) resync converges to the configuration of a full sync.
+
+Full-strength statement (the property):
+    for every history (batches of operations on the cluster, one reconciliation after each batch),
+    the items (hosts with their paths, backends) the long-lived controller holds, with their traces, are
+    the items of `syncFull` on the final cluster:
+        ∀ batches, Obs (runHistory rev batches).2.st = Obs (syncFull rev (runHistory rev batches).1)
+It is FALSE for revisions 0 and 1 of the code (`late_ref_rev0`, `late_ref_rev1`: kernel-checked
+counter-examples, replayed on the real pipeline by the harness corpus; repaired by 0a95d71 and b28788a).
+For the current revision (2) this file proves
+  M-Tracker   : `tracker_output`, `tracker_output_reachPlus`, `tracker_remove_no_touch`,
+                `tracker_untouched_adj`, `tracker_untouched_conn`, `tracker_clear`, `go_query_terminates`
+  (a)         : `linked_full`, `linked_partial`, `linked_history` — the tracking invariant (every item is
+                connected to each declarer and to each object read for it; every synced ingress to every
+                host, service and backend its declarations name) is established by a full sync and preserved
+                by every partial sync, for all histories
+  (b) closure : `closure_complete_items` (an item whose recorded dependencies changed is dirty),
+                `closure_complete_declarers` (every declarer, in the new cluster, of a dirty host is re-synced),
+                `clean_item_fresh` (what survives was built from objects that did not change)
+-/
 namespace HapVerif.C01
+
+/-! ## M-Tracker -/
+
+/-- output of `QueryLinks` = the nodes, with at least one edge, of the connected components of the seeds -/
+theorem tracker_output {α : Type} [DecidableEq α] (t : Tr α) (seeds : List α) (n : α) :
+    n ∈ (queryLinks t seeds true).1 ↔ HasEdge t n ∧ ∃ s ∈ seeds, Conn t s n :=
+  mem_queryOut
+
+/-- the same set as the Go code computes it: reachable from a seed in ≥ 1 step (a seed without edges
+returns nothing; a seed is returned iff it is reachable from a seed, i.e. iff it has an edge) -/
+theorem tracker_output_reachPlus {α : Type} [DecidableEq α] (t : Tr α) (seeds : List α) (n : α) :
+    n ∈ (queryLinks t seeds false).1 ↔ ∃ s ∈ seeds, ReachPlus t s n :=
+  mem_queryOut_iff_reachPlus
+
+/-- after `QueryLinks(…, true)` no remaining edge touches a returned node -/
+theorem tracker_remove_no_touch {α : Type} [DecidableEq α] (t : Tr α) (seeds : List α) (e : α × α)
+    (he : e ∈ (queryLinks t seeds true).2) :
+    e.1 ∉ (queryLinks t seeds true).1 ∧ e.2 ∉ (queryLinks t seeds true).1 :=
+  rest_no_touch_out he
+
+/-- the whole connected component is deleted: a returned node has no edge left -/
+theorem tracker_remove_isolates {α : Type} [DecidableEq α] (t : Tr α) (seeds : List α) (a b : α)
+    (ha : a ∈ (queryLinks t seeds true).1) : ¬ Adj (queryLinks t seeds true).2 a b :=
+  rest_isolated (mem_reach.mpr (mem_queryOut.mp ha).2) b
+
+/-- untouched components are unchanged (edges) -/
+theorem tracker_untouched_adj {α : Type} [DecidableEq α] (t : Tr α) (seeds : List α) (a b : α)
+    (ha : ¬ ∃ s ∈ seeds, Conn t s a) : Adj (queryLinks t seeds true).2 a b ↔ Adj t a b :=
+  rest_adj_iff (fun h => ha (mem_reach.mp h)) b
+
+/-- untouched components are unchanged (connectivity) -/
+theorem tracker_untouched_conn {α : Type} [DecidableEq α] (t : Tr α) (seeds : List α) (a b : α)
+    (ha : ¬ ∃ s ∈ seeds, Conn t s a) : Conn (queryLinks t seeds true).2 a b ↔ Conn t a b :=
+  rest_conn_iff (fun h => ha (mem_reach.mp h)) b
+
+/-- a read-only query changes nothing; `ClearLinks` leaves no edge -/
+theorem tracker_clear {α : Type} [DecidableEq α] (t : Tr α) (seeds : List α) :
+    (queryLinks t seeds false).2 = t ∧ (clearLinks : Tr α) = [] := ⟨rfl, rfl⟩
+
+/-- the Go recursion (`updateOutput` inside `QueryLinks`, `removeRef`) terminates: on the mirror of the
+Go data structure both recursions stay within depth `number of half edges + 1` -/
+theorem go_query_terminates {α : Type} [DecidableEq α] (d : Half α) (seeds : List α) (remove : Bool) :
+    (goQuery d seeds remove).isSome = true :=
+  goQuery_terminates d seeds remove
+
+/-- each nested `removeRef` call has deleted a key first: depth ≤ half edges + 1, state never grows -/
+theorem go_removeRef_terminates {α : Type} [DecidableEq α] (f : Nat) (n : α) (d : Half α) (hf : d.length < f) :
+    ∃ d', goRemoveRef f n d = some d' ∧ d'.length ≤ d.length :=
+  goRemoveRef_terminates f n d hf
+
+/-! ## (a) the tracking invariant, all histories -/
+
+/-- established by a full sync -/
+theorem linked_full (rev : Rev) (hrev : 2 ≤ rev) (w : World) : Linked w (syncFull rev w) :=
+  linked_syncFull rev hrev w
+
+/-- preserved by a partial sync -/
+theorem linked_partial (rev : Rev) (hrev : 2 ≤ rev) (w w' : World) (b : Batch) (st : St)
+    (hd : Describes w w' b) (hwf : w.WF) (hwf' : w'.WF) (hl : Linked w st) :
+    Linked w' (syncPartial rev w' b st) :=
+  linked_syncPartial rev hrev hd hwf hwf' hl
+
+/-- a history at the level of reconciliations: the cluster at each sync and the batch that led to it
+(most recent first) -/
+def lastWorld (w0 : World) : List (World × Batch) → World
+  | [] => w0
+  | (w', _) :: _ => w'
+
+def runSteps (rev : Rev) (w0 : World) : List (World × Batch) → St
+  | [] => syncFull rev w0
+  | (w', b) :: rest => step rev w' b (runSteps rev w0 rest)
+
+/-- every batch of the history describes its change of the cluster (partial syncs) and keys are unique -/
+def GoodHistory (w0 : World) : List (World × Batch) → Prop
+  | [] => w0.WF
+  | (w', b) :: rest =>
+    GoodHistory w0 rest ∧ w'.WF ∧ (b.full = false → Describes (lastWorld w0 rest) w' b)
+
+/-- (a) for ALL histories: after the initial full sync and any sequence of full and partial syncs the
+controller state satisfies the tracking invariant for the current cluster -/
+theorem linked_history (rev : Rev) (hrev : 2 ≤ rev) (w0 : World) (h : List (World × Batch))
+    (hg : GoodHistory w0 h) :
+    Linked (lastWorld w0 h) (runSteps rev w0 h) ∧ (lastWorld w0 h).WF := by
+  induction h with
+  | nil => exact ⟨linked_syncFull rev hrev w0, hg⟩
+  | cons x rest ih =>
+    obtain ⟨w', b⟩ := x
+    obtain ⟨hg1, hwf', hdesc⟩ := hg
+    obtain ⟨hl, hwf⟩ := ih hg1
+    refine ⟨?_, hwf'⟩
+    show Linked w' (step rev w' b (runSteps rev w0 rest))
+    unfold step
+    cases hb : b.full with
+    | true => simp only [if_true]; exact linked_syncFull rev hrev w'
+    | false =>
+      simp only [Bool.false_eq_true, if_false]
+      exact linked_syncPartial rev hrev (hdesc hb) hwf hwf' hl
+
+/-! ## (b) closure completeness -/
+
+/-- the recorded dependencies of a touch changed between `w` and `w'`: its ingress is a seed of the
+batch, or an object it read has another value -/
+def TouchChanged (w w' : World) (b : Batch) (x : Touch) : Prop :=
+  (⟨.ing, x.ing.key⟩ : Node) ∈ b.links ∨ ∃ r ∈ x.reads, w'.read r.1 ≠ w.read r.1
+
+/-- (b1) an item whose recorded dependencies changed is returned by the tracker (it is dirty):
+hosts and backends -/
+theorem closure_complete_items (w w' : World) (b : Batch) (st : St)
+    (hd : Describes w w' b) (hl : Linked w st) :
+    (∀ h x, st.hm h = some x → (∃ t ∈ x.trace, TouchChanged w w' b t) → (⟨.host, h⟩ : Node) ∈ dirty w' b st) ∧
+    (∀ k, (∃ t ∈ st.bm k, TouchChanged w w' b t) → (⟨.back, k⟩ : Node) ∈ dirty w' b st) := by
+  have key : ∀ (item : Node) (t : Touch), touchOK st.tr item t → item ≠ ⟨.ing, t.ing.key⟩ →
+      TouchChanged w w' b t → item ∈ dirty w' b st := by
+    intro item t hok hne hch
+    have hedge : HasEdge (preTr w' b st) item := (hasEdge_of_conn_ne hok.1 hne).mono (preTr_sub w' b st)
+    refine mem_queryOut.mpr ⟨hedge, ?_⟩
+    rcases hch with hseed | ⟨r, hr, hneq⟩
+    · exact ⟨_, hseed, (hok.1.mono (preTr_sub w' b st)).symm⟩
+    · exact ⟨r.1, hd.obj r.1 (fun e => hneq e.symm), ((hok.2 r hr).mono (preTr_sub w' b st)).symm⟩
+  constructor
+  · rintro h x hx ⟨t, ht, hch⟩
+    exact key _ t (hl.tc.host h x hx t ht) (by intro e; cases e) hch
+  · rintro k ⟨t, ht, hch⟩
+    exact key _ t (hl.tc.back k t ht) (by intro e; cases e) hch
+
+/-- (b1, contrapositive) what survives a partial sync was built from ingresses that are not seeds and from
+objects that did not change: its trace is still valid in the new cluster -/
+theorem clean_item_fresh (w w' : World) (b : Batch) (st : St)
+    (hd : Describes w w' b) (hl : Linked w st) (h : String) (x : Host)
+    (hx : st.hm h = some x) (hclean : (⟨.host, h⟩ : Node) ∉ dirty w' b st) :
+    ∀ t ∈ x.trace, (⟨.ing, t.ing.key⟩ : Node) ∉ b.links ∧ ∀ r ∈ t.reads, w'.read r.1 = w.read r.1 := by
+  intro t ht
+  have := (closure_complete_items w w' b st hd hl).1 h x hx
+  constructor
+  · intro hs; exact hclean (this ⟨t, ht, Or.inl hs⟩)
+  · intro r hr
+    apply Classical.byContradiction
+    intro hne
+    exact hclean (this ⟨t, ht, Or.inr ⟨r, hr, hne⟩⟩)
+
+/-- (b2) every declarer, in the new cluster, of a host that is connected to a seed is in the re-synced
+list — declarers that are carried by the batch, and declarers that did not change (they are linked to
+the host, hence dirty themselves) -/
+theorem closure_complete_declarers (w w' : World) (b : Batch) (st : St)
+    (hd : Describes w w' b) (hwf : w.WF) (hwf' : w'.WF) (hl : Linked w st)
+    (i : Ingress) (hi : i ∈ w'.validSorted) (d : Decl) (hdd : d ∈ declsOf i)
+    (hdirty : (⟨.host, d.host⟩ : Node) ∈ reach (preTr w' b st) b.links) :
+    i ∈ resyncList w' b (dirty w' b st) := by
+  apply Classical.byContradiction
+  intro hn
+  obtain ⟨hiw, _, hnd⟩ := not_resynced hd hwf hwf' hi hn
+  have hold := (hl.ing i hiw d hdd).1
+  have hdi : d.ing = i := declsOf_ing hdd
+  rw [hdi] at hold
+  have hold' := hold.mono (preTr_sub w' b st)
+  apply hnd
+  refine mem_queryOut.mpr ⟨hasEdge_of_conn_ne hold' (by intro e; cases e), ?_⟩
+  obtain ⟨s, hs, hc⟩ := mem_reach.mp hdirty
+  exact ⟨s, hs, hc.trans hold'.symm⟩
+
+/-! ## non-vacuity and the historical counter-examples (kernel-checked on the model) -/
+
+namespace Witness
+
+def svcApp : Service := ⟨"d/app", [⟨"http", 80, "8080"⟩], []⟩
+def svcApi : Service := ⟨"d/api", [⟨"http", 80, "8080"⟩], []⟩
+/-- the service after it re-maps port 80 to another target -/
+def svcApi2 : Service := ⟨"d/api", [⟨"web", 80, "8081"⟩], []⟩
+/-- the owner of `a.local/a` -/
+def i1 : Ingress :=
+  { ns := "d", name := "i1", created := 1, classAnn := some "haproxy",
+    rules := [⟨"a.local", [⟨"/a", "Prefix", "app", "80"⟩]⟩] }
+/-- the loser of `a.local/a` (older than `i3`, carries a backend annotation) -/
+def i2 : Ingress :=
+  { ns := "d", name := "i2", created := 2, classAnn := some "haproxy", ann := [("balance-algorithm", "leastconn")],
+    rules := [⟨"a.local", [⟨"/a", "Prefix", "api", "80"⟩]⟩] }
+/-- an unrelated ingress sharing the backend of the loser -/
+def i3 : Ingress :=
+  { ns := "d", name := "i3", created := 3, classAnn := some "haproxy",
+    rules := [⟨"b.local", [⟨"/", "Prefix", "api", "80"⟩]⟩] }
+
+def w0 : World := { ings := [i1, i2, i3], svcs := [svcApp, svcApi] }
+/-- the owner is deleted -/
+def w1 : World := { w0 with ings := [i2, i3] }
+def b1 : Batch := { links := [⟨.ing, "d/i1"⟩], del := ["d/i1"] }
+
+/-- what is compared: hosts with paths and traces, backends with traces -/
+def obs (st : St) : List Host × List Back := (st.hosts, st.backs)
+
+/-- finding 1 (code before 0a95d71): when the owner goes the loser lands on the SURVIVING backend
+`d_api_8080`; the partial result differs from the full one. Replay: corpus of harness/cmd/hv/c01.go. -/
+theorem late_ref_rev0 :
+    lateBacks 0 w1 b1 (syncFull 0 w0) = ["d_api_8080"] ∧
+    (syncPartial 0 w1 b1 (syncFull 0 w0)).bm "d_api_8080" ≠ (syncFull 0 w1).bm "d_api_8080" := by
+  decide +kernel
+
+/-- the same step on revision 2: the loser is linked to the backend, everything is re-synced -/
+theorem no_late_ref_rev2 :
+    noLateRef 2 w1 b1 (syncFull 2 w0) = true ∧
+    (syncPartial 2 w1 b1 (syncFull 2 w0)).bm "d_api_8080" = (syncFull 2 w1).bm "d_api_8080" ∧
+    (syncPartial 2 w1 b1 (syncFull 2 w0)).hm "a.local" = (syncFull 2 w1).hm "a.local" := by
+  decide +kernel
+
+/-- finding 3 (0a95d71 alone): `i1`,`i2` first; the service re-maps the port; `i3` arrives; the owner goes -/
+def wa : World := { ings := [i1, i2], svcs := [svcApp, svcApi] }
+def wb : World := { ings := [i1, i2], svcs := [svcApp, svcApi2] }
+def bb : Batch := { links := [⟨.svc, "d/api"⟩] }
+def wc : World := { ings := [i1, i2, i3], svcs := [svcApp, svcApi2] }
+def bc : Batch := { links := [⟨.ing, "d/i3"⟩], add := [i3] }
+def wd : World := { ings := [i2, i3], svcs := [svcApp, svcApi2] }
+def bd : Batch := { links := [⟨.ing, "d/i1"⟩], del := ["d/i1"] }
+
+def stc (rev : Rev) : St := syncPartial rev wc bc (syncPartial rev wb bb (syncFull rev wa))
+
+theorem late_ref_rev1 :
+    lateBacks 1 wd bd (stc 1) = ["d_api_8081"] ∧
+    (syncPartial 1 wd bd (stc 1)).bm "d_api_8081" ≠ (syncFull 1 wd).bm "d_api_8081" := by
+  decide +kernel
+
+theorem no_late_ref_rev2_remap :
+    noLateRef 2 wd bd (stc 2) = true ∧
+    (syncPartial 2 wd bd (stc 2)).bm "d_api_8081" = (syncFull 2 wd).bm "d_api_8081" := by
+  decide +kernel
+
+/-- non-vacuity of the tracker theorems: a seed with an edge is returned with its whole component, a seed
+without edges returns nothing, another component is left alone -/
+def halfOfNat (t : Tr Nat) : Half Nat := t.flatMap fun e => [(e.1, e.2), (e.2, e.1)]
+
+example :
+    queryLinks [((1 : Nat), 2), (2, 3), (7, 8)] [1, 5] true = ([1, 2, 3], [(7, 8)]) ∧
+    goQuery (halfOfNat [((1 : Nat), 2), (2, 3), (7, 8)]) [1, 5] true ≠ none := by
+  decide +kernel
+
+/-- non-vacuity of `Linked`/`Describes`: the step `w0 → w1` of the witness is described by `b1` -/
+example : (⟨.ing, "d/i1"⟩ : Node) ∈ dirty w1 b1 (syncFull 2 w0) ∧
+    (⟨.back, "d_api_8080"⟩ : Node) ∈ dirty w1 b1 (syncFull 2 w0) ∧
+    (resyncList w1 b1 (dirty w1 b1 (syncFull 2 w0))).map (·.key) = ["d/i2", "d/i3"] := by
+  decide +kernel
+
+end Witness
+
+/-! ## regenerated facts the model mirrors (go/ast of /repo) -/
+
+theorem facts_c01 :
+    Facts.c01TrackSyncPartial = ["QueryLinks(c.changed.Links,true)"] ∧
+    Facts.c01TrackAddHost = ["TrackNames(source.Type,source.FullName(),convtypes.ResourceHAHostname,hostname)"] ∧
+    Facts.c01TrackAddBackend =
+      ["TrackRefName(?,ctx,hostname)",
+       "TrackNames(source.Type,source.FullName(),convtypes.ResourceHABackend,backend.ID)"] ∧
+    Facts.c01TrackDefaultBackend =
+      ["TrackNames(source.Type,source.FullName(),convtypes.ResourceHAHostname,hostname)",
+       "TrackNames(source.Type,source.FullName(),convtypes.ResourceService,fullSvcName)"] ∧
+    Facts.c01TrackSkipped =
+      ["TrackNames(source.Type,source.FullName(),convtypes.ResourceService,fullSvcName)",
+       "TrackNames(source.Type,source.FullName(),convtypes.ResourceHABackend,backendID.String())"] ∧
+    Facts.c01SkippedCallers =
+      ["syncIngressHTTP:c.trackSkippedBackend", "syncIngressHTTP:c.trackSkippedBackend",
+       "syncIngressTCP:c.trackSkippedBackend", "addDefaultHostBackend:c.trackSkippedService"] ∧
+    Facts.c01TrackClass = ["TrackNames(convtypes.ResourceIngressClass,?,source.Type,source.FullName())"] ∧
+    Facts.c01TrackAdded =
+      ["TrackNames(convtypes.ResourceIngress,name,convtypes.ResourceHABackend,backend.ID)",
+       "TrackNames(convtypes.ResourceIngress,name,ctx,normalizeHostname(\"\",port))",
+       "TrackNames(convtypes.ResourceIngress,name,ctx,hostname)",
+       "TrackNames(convtypes.ResourceIngress,name,ctx,normalizeHostname(rule.Host,port))",
+       "TrackNames(convtypes.ResourceIngress,name,convtypes.ResourceHABackend,backend.ID)"] ∧
+    Facts.c01SyncCalls =
+      ["ingressConverter.NeedFullSync", "c.options.Tracker.ClearLinks", "c.haproxy.Clear", "ingressConverter.Sync"] ∧
+    Facts.c01RemoveRefCalls = ["t.removeRef"] ∧
+    Facts.c01QueryLinksCalls = ["t.removeRef", "sort.Strings"] ∧
+    Facts.c01TrackRefsCalls = ["t.track", "t.track"] := by
+  decide
+
 end HapVerif.C01
